@@ -134,6 +134,13 @@ class PyGen:
         self.pos = pos          # z3 Int
 
 
+class PyRuleSeq:
+    """the *args tuple of callable references handed to seq_alts: a symbolic sequence of callable identities"""
+
+    def __init__(self, ids):
+        self.ids = ids
+
+
 class PyConst:
     """an opaque Python constant (class object, module, exception class ...)"""
 
